@@ -224,10 +224,13 @@ type c16Tok struct {
 	Word bool   `json:"word"` // word-like (keyword, name, number)
 }
 
-var c16Words = []string{"key", "VALUE", "Select", "where", "AND", "or", "In", "between", "x", "f1", "k_2", "12", "007", "1.5", ".5", "limit", "As", "desc", "true", "put", "tarif\u00e0", "\u0446\u0435\u0445", "a\u00c5", "\u0105"}
+var c16Words = []string{"key", "VALUE", "Select", "where", "AND", "or", "In", "between", "x", "f1", "k_2", "12", "007", "1.5", ".5", "limit", "As", "desc", "true", "put", "tarif\u00e0", "\u0446\u0435\u0445", "a\u00c5", "\u0105", "\u023a", "x\u212a", "\u0130d", "\u2126m"}
 var c16Ops = []string{"=", "!=", "^=", "~=", "<", "<=", ">", ">=", "+", "-", "*", "/", "!", "&", "|"}
 var c16Puncts = []string{"(", ")", "[", "]", ",", ";"}
-var c16Inner = []string{"", "a", "A b", "k=1", "x<=y", "(", "a,b", " ", "!", "and", "1+2", "ü", "a;b|c&d"}
+
+// (the last four: letters whose lower-case form has another byte length; a
+// literal keeps them as written, the words behind it keep their offsets)
+var c16Inner = []string{"", "a", "A b", "k=1", "x<=y", "(", "a,b", " ", "!", "and", "1+2", "ü", "a;b|c&d", "\u023a", "\u212a", "\u0130", "\u1e9e\u212b"}
 
 func genC16Tok(t *rapid.T) c16Tok {
 	switch rapid.IntRange(0, 9).Draw(t, "tokclass") {
